@@ -11,6 +11,17 @@ program, so they occur at every position.
 A fresh->stale transition is classified by structural features only:
   self   route=<operation that wrote>                       the written object itself is stale
   alias  rel=<ancestor|descendant|sibling> wtype=<tracked|ndarray> [hashed_since_child=<yes|no>]
+
+Container level (round 4 additions):
+  colorvisuals colors=<default|derived|set> sym=...   colours the visual generated and handed out
+                                                      are edited in place (edit x pre-reads x attr)
+  derived_alias route=<library function [given=...]>  every object the library derives from a mesh /
+                                                      path, and every setter given an array of another
+                                                      object, is scanned for a *second* tracked array
+                                                      over the source's memory; one owner is then
+                                                      written with an in-place operator and the hash
+                                                      of the other owner is judged
+  contract ... stale_memo caller=<qualname>           which library function was handed a stale memo
 """
 
 from __future__ import annotations
@@ -25,7 +36,9 @@ RULE = (
     "programs of numpy operations (overridden mutators, other numpy write routes, view creation, "
     "byte-preserving reads, explicit hash reads) on a TrackedArray and its views; all programs of "
     "length <=2 enumerated per dtype/shape, view/hash/write templates of length 3-4 enumerated, longer "
-    "ones sampled; plus container-level edits (mesh, path, visuals, scene, datastore). A case is one "
+    "ones sampled (a quarter of them on a root owning its memory); plus container-level edits (mesh, path, "
+    "visuals incl. generated colours, scene, datastore) and a scan of 43 library routes (derived objects, "
+    "setters given arrays of another object) for second tracked wrappers of one buffer. A case is one "
     "program; distinct = distinct (dtype, op sequence with targets); non-trivial = at least one step "
     "changed the bytes of a live tracked array after a hash read of an aliasing object (so a stale "
     "memo was possible)."
@@ -43,6 +56,10 @@ ANCHORS = [
     "trimesh/parent.py:Geometry.__hash__",
     "trimesh/path/path.py:Path.__hash__",
     "trimesh/scene/scene.py:Scene.__hash__",
+    "trimesh/visual/color.py:ColorVisuals.__hash__",
+    "trimesh/visual/color.py:ColorVisuals._get_colors",
+    "trimesh/path/path.py:Path.vertices",
+    "trimesh/base.py:Trimesh.outline",
 ]
 SHARDS = {"quick": 1, "thorough": 12}
 BUDGET = {"quick": 45, "thorough": 420}
@@ -98,8 +115,40 @@ def _val(T):
 
 
 class Op:
-    def __init__(self, name, group, fn):
+    def __init__(self, name, group, fn, ext=False):
         self.name, self.group, self.fn = name, group, fn
+        # ext: one of the many further numpy write routes (round 4); they are run in every
+        # position of the templates but not paired with each other in the length-2 enumeration
+        self.ext = ext
+
+
+def _plain(T):
+    """
+    Base-class copy of T.  Operands of the write routes must not be *derived* from T as a
+    TrackedArray (`T.copy()`, `T[::-1]`, `T + 1`): __array_finalize__ flags the source of every
+    derived tracked array as dirty, which repairs the memo by accident and hides the route.
+    """
+    return np.array(T)
+
+
+def _other(T):
+    """Base-class array of T's shape and dtype in which every element differs from T's."""
+    P = np.array(T)
+    if P.dtype == bool:
+        return ~P
+    return P + 1  # uint8 wraps
+
+
+def _eye(T):
+    return np.eye(T.shape[-1], dtype=T.dtype)
+
+
+def _aliased(T, live):
+    """Does another live object of the program look at T's memory?"""
+    for l in live or ():
+        if l.obj is not T and np.shares_memory(l.obj, T):
+            return True
+    return False
 
 
 def _mask(T):
@@ -305,14 +354,183 @@ def _ops():
 
     @add("take_out", "numpy")
     def _(T, st):
-        np.take(T[::-1].copy(), np.arange(T.shape[0]), axis=0, out=T)
+        np.take(_other(T), np.arange(T.shape[0]), axis=0, out=T)
 
-    @add("dot_out", "numpy")
+    # ---- round 4: further routes.  (a) functions and ufunc methods writing through `out=`
+    def ext(name, group="numpy"):
+        def deco(fn):
+            ops.append(Op(name, group, fn, ext=True))
+            return fn
+
+        return deco
+
+    @ext("dot_out")
     def _(T, st):
-        if T.ndim == 2 and T.shape[0] == T.shape[1] and T.dtype == np.float64:
-            np.dot(T.copy(), T.copy(), out=T)
-        else:
+        np.dot(_other(T), _eye(T), out=T)
+
+    @ext("matmul_out")
+    def _(T, st):
+        np.matmul(_other(T), _eye(T), out=T)
+
+    @ext("einsum_out")
+    def _(T, st):
+        np.einsum("...->...", _other(T), out=T)
+
+    @ext("choose_out")
+    def _(T, st):
+        np.choose(np.zeros(T.shape, dtype=np.intp), [_other(T)], out=T)
+
+    @ext("concatenate_out")
+    def _(T, st):
+        O = _other(T)
+        np.concatenate([O[:1], O[1:]], axis=0, out=T)
+
+    @ext("compress_out")
+    def _(T, st):
+        np.compress(np.ones(T.shape[0], dtype=bool), _other(T), axis=0, out=T)
+
+    @ext("sum_out")
+    def _(T, st):
+        O = _other(T)
+        np.sum(np.stack([O, np.zeros_like(O)]), axis=0, out=T)
+
+    @ext("mean_out")
+    def _(T, st):
+        O = _other(T)
+        np.mean(np.stack([O, O]), axis=0, out=T)
+
+    @ext("max_out")
+    def _(T, st):
+        O = _other(T)
+        np.max(np.stack([O, O]), axis=0, out=T)
+
+    @ext("cumprod_out")
+    def _(T, st):
+        np.cumprod(_other(T), axis=0, out=T)
+
+    @ext("ndarray_sum_out")
+    def _(T, st):
+        O = _other(T)
+        np.stack([O, np.zeros_like(O)]).sum(axis=0, out=T)
+
+    @ext("ndarray_dot_method_out")
+    def _(T, st):
+        _other(T).dot(_eye(T), out=T)
+
+    @ext("ufunc_reduce_out")
+    def _(T, st):
+        O = _other(T)
+        np.add.reduce(np.stack([O, np.zeros_like(O)]), axis=0, out=T)
+
+    @ext("ufunc_accumulate_out")
+    def _(T, st):
+        np.add.accumulate(_other(T), axis=0, out=T)
+
+    @ext("ufunc_reduceat_out")
+    def _(T, st):
+        O = _other(T)
+        np.add.reduceat(O, np.arange(O.shape[0]), axis=0, out=T)
+
+    @ext("ufunc_out_positional")
+    def _(T, st):
+        O = _other(T)
+        np.maximum(O, O, T)
+
+    @ext("ufunc_out_where")
+    def _(T, st):
+        O = _other(T)
+        np.maximum(O, O, out=T, where=np.ones(T.shape, dtype=bool))
+
+    @ext("ufunc_out_two_outputs")
+    def _(T, st):
+        O = _other(T)
+        np.divmod(O, 1, out=(T, np.empty_like(O)))
+
+    @ext("put_along_axis")
+    def _(T, st):
+        np.put_along_axis(T, np.zeros((1,) + T.shape[1:], dtype=np.intp), _other(T)[:1], axis=0)
+
+    # (b) in-place methods and assignable attributes of the array itself
+    @ext("resize")
+    def _(T, st):
+        # refcheck=False reallocates under every view: only for an owner nobody else looks at
+        if not T.flags.owndata or _aliased(T, st):
             raise TypeError("n/a")
+        T.resize((T.shape[0] + 1,) + T.shape[1:], refcheck=False)
+
+    @ext("setstate")
+    def _(T, st):
+        # __setstate__ frees the buffer of an owner (a view only lets go of its base)
+        if T.flags.owndata and _aliased(T, st):
+            raise TypeError("n/a")
+        T.__setstate__(_other(T).__reduce__()[2])
+
+    @ext("real_setter")
+    def _(T, st):
+        T.real = _other(T)
+
+    @ext("imag_setter")
+    def _(T, st):
+        T.imag = _other(T)
+
+    @ext("strides_setter")
+    def _(T, st):
+        T.strides = (0,) + T.strides[1:]
+
+    @ext("setfield")
+    def _(T, st):
+        T.setfield(_other(T), T.dtype, 0)
+
+    # (c) writers implemented in C which never call back into Python
+    @ext("nditer_readwrite")
+    def _(T, st):
+        with np.nditer([T, _other(T)], op_flags=[["readwrite"], ["readonly"]]) as it:
+            for x, y in it:
+                x[...] = y
+
+    @ext("nditer_writeonly_buffered")
+    def _(T, st):
+        with np.nditer([T, _other(T)], flags=["buffered", "external_loop"],
+                       op_flags=[["writeonly"], ["readonly"]]) as it:
+            for x, y in it:
+                x[...] = y
+
+    @ext("generator_random_out")
+    def _(T, st):
+        np.random.default_rng(0).random(out=T)
+
+    @ext("generator_standard_normal_out")
+    def _(T, st):
+        np.random.default_rng(0).standard_normal(out=T)
+
+    @ext("generator_standard_exponential_out")
+    def _(T, st):
+        np.random.default_rng(0).standard_exponential(out=T)
+
+    @ext("generator_standard_gamma_out")
+    def _(T, st):
+        np.random.default_rng(0).standard_gamma(2.0, out=T)
+
+    @ext("generator_shuffle")
+    def _(T, st):
+        np.random.default_rng(0).shuffle(T)
+
+    @ext("randomstate_shuffle")
+    def _(T, st):
+        np.random.RandomState(0).shuffle(T)
+
+    @ext("readinto")
+    def _(T, st):
+        import io
+
+        io.BytesIO(_other(T).tobytes()).readinto(T)
+
+    @ext("pack_into")
+    def _(T, st):
+        import struct
+
+        first = memoryview(T).cast("B")[0]
+        struct.pack_into("B", T, 0, first ^ 0xFF)
 
     # ---- view creation (group "view") -> returns the new live object
     @add("v_slice", "view")
@@ -371,7 +589,23 @@ def _ops():
     def _(T, st):
         return T.view(np.uint8)
 
+    @add("v_frombuffer", "view")
+    def _(T, st):
+        return np.frombuffer(T, dtype=T.dtype).reshape(T.shape)
+
+    @add("v_as_strided", "view")
+    def _(T, st):
+        return np.lib.stride_tricks.as_strided(T)
+
     # ---- byte-preserving (group "read"); copies are returned so they become live objects
+    @add("shape_setter", "read")
+    def _(T, st):
+        T.shape = (-1,)
+
+    @add("dtype_setter", "read")
+    def _(T, st):
+        T.dtype = np.uint8
+
     @add("r_copy", "read")
     def _(T, st):
         return T.copy()
@@ -482,6 +716,10 @@ def run_program(run, dname, base, prog, ops_by_name):
     from trimesh.caching import tracked_array
 
     root = tracked_array(base.copy())
+    if dname.endswith("+own"):
+        # the arrays of `mesh.copy()` and of `mesh.vertices = mesh.vertices * 2` own their
+        # memory; `tracked_array(x)` is a view of x.  Only an owner can be resized.
+        root = root.copy()
     live = [Live(root, None, -1, "root")]
     nontrivial = False
     for step, (opname, sel) in enumerate(prog):
@@ -495,7 +733,7 @@ def run_program(run, dname, base, prog, ops_by_name):
         T = live[ti].obj
         before = [np.ascontiguousarray(np.asarray(l.obj)).tobytes() for l in live]
         try:
-            res = op.fn(T, None)
+            res = op.fn(T, live)
         except Exception:
             res = None
             run.count("op_raised")
@@ -670,12 +908,24 @@ def container_checks(run):
             hb = lambda: b.__hash__()  # noqa
         h0a, h0b = a.__hash__(), hb()
         _ = a.bounds
+        # (since 60523ef a mesh copies a writeable array it is handed: the scenario only exists
+        # where the second owner really holds the memory of the first; otherwise the second
+        # owner must simply be unaffected)
+        other = b["v"] if how == "datastore" else b.vertices
+        shared = bool(np.shares_memory(np.asarray(a.vertices), np.asarray(other)))
+        other_bytes = np.asarray(other).tobytes()
         a.vertices[:, 2] *= 4.0
         run.case("container:shared_tracked_array:" + how)
         run.count("container_checks")
+        run.count("shared_tracked_array:" + ("memory_shared" if shared else "second_owner_got_a_copy"))
         if a.__hash__() == h0a:
             run.violation("container kind=mesh scenario=shared_tracked_array:%s owner=editor sym=hash_unchanged" % how,
                           "hash of the mesh that was edited did not change", {"how": how})
+        if not shared:
+            if np.asarray(other).tobytes() != other_bytes or hb() != h0b:
+                run.violation("container kind=mesh scenario=shared_tracked_array:%s owner=other sym=changed_without_sharing" % how,
+                              "the second owner holds its own memory but its bytes or hash changed with an edit of the first", {"how": how})
+            continue
         if hb() == h0b:
             run.violation("container kind=mesh scenario=shared_tracked_array:%s owner=other sym=hash_unchanged" % how,
                           "a TrackedArray shared by two owners was edited through one of them; the other owner's hash did not change",
@@ -812,6 +1062,290 @@ def container_checks(run):
     if s2.__hash__() != s3.__hash__():
         run.violation("container kind=scene sym=equal_differ", "equal scenes hash differently", {})
 
+    visual_checks(run)
+
+
+# ----------------------------------------------------------------------------
+# visuals: colours which the visual generated itself (defaults, vertex colours derived from
+# face colours and the reverse) are handed out as TrackedArrays exactly like colours the user
+# assigned; an edit of them is an edit of the visual
+
+
+def visual_checks(run):
+    import trimesh
+    from trimesh.visual.color import ColorVisuals
+
+    box = trimesh.creation.box()
+
+    def tile(n):
+        return np.tile(np.array([10, 20, 30, 255], dtype=np.uint8), (n, 1))
+
+    sources = {
+        "default": lambda m: None,
+        "face": lambda m: setattr(m.visual, "face_colors", tile(len(m.faces))),
+        "vertex": lambda m: setattr(m.visual, "vertex_colors", tile(len(m.vertices))),
+    }
+    edits = {
+        "setitem_row": lambda c: c.__setitem__(0, [255, 0, 0, 255]),
+        "alpha_column": lambda c: c.__setitem__((slice(None), 3), 10),
+        "iadd": lambda c: c.__iadd__(1),
+        "fill": lambda c: c.fill(7),
+    }
+    reads = {
+        "hash": lambda v: v.__hash__(),
+        "kind": lambda v: v.kind,
+        "transparency": lambda v: v.transparency,
+        "defined": lambda v: v.defined,
+        "face_colors": lambda v: v.face_colors,
+        "vertex_colors": lambda v: v.vertex_colors,
+        "main_color": lambda v: v.main_color,
+        "copy": lambda v: v.copy(),
+    }
+    # "reread": the attribute is read a second time while the first handle is kept
+    pre_reads = [(), ("hash",), ("transparency",), ("kind", "hash"), ("reread",), ("reread", "hash"),
+                 ("hash", "transparency", "copy")]
+    for src, attr, (ename, edit), pre in itertools.product(sources, ("face", "vertex"), edits.items(), pre_reads):
+        origin = "default" if src == "default" else ("set" if src == attr else "derived")
+        m = box.copy()
+        sources[src](m)
+        vis = m.visual
+        colors = getattr(vis, attr + "_colors")  # handed out before the reads, as a user would keep it
+        for r in pre:
+            reads[attr + "_colors" if r == "reread" else r](vis)
+        h0 = vis.__hash__() if pre else None
+        if h0 is None:
+            # the hash of an identical visual nobody has touched
+            m0 = box.copy()
+            sources[src](m0)
+            h0 = m0.visual.__hash__()
+        b0 = np.array(colors).tobytes()
+        edit(colors)
+        shown = np.array(colors)
+        run.case("container:visual:" + origin, src, attr, ename, pre, nontrivial=bool(pre))
+        run.count("container_checks")
+        if shown.tobytes() == b0:
+            run.skip("colour edit changed nothing")
+            continue
+        case = {"colors": src, "attr": attr, "edit": ename, "pre_reads": list(pre)}
+        h1 = vis.__hash__()
+        fresh = ColorVisuals(mesh=m, **{attr + "_colors": shown.copy()})
+        key = "container kind=colorvisuals colors=%s " % origin
+        if h1 == h0:
+            run.violation(key + "sym=hash_unchanged",
+                          "colours handed out by the visual were edited in place; the hash of the visual did not change", case)
+        if h1 != fresh.__hash__():
+            run.violation(key + "sym=differs_from_fresh",
+                          "hash of the visual differs from the hash of a fresh visual holding the same colours", case)
+        # reads do not change bytes, so they do not change the hash
+        moved = None
+        for rname, read in reads.items():
+            hb = vis.__hash__()
+            read(vis)
+            if vis.__hash__() != hb and moved is None:
+                moved = rname
+        if moved is not None:
+            run.violation(key + "sym=hash_changed_by_read",
+                          "a read of the visual (`%s`) changed its hash" % moved, dict(case, read=moved))
+        if vis.__hash__() != fresh.__hash__():
+            run.violation(key + "sym=differs_from_fresh_after_reads",
+                          "colours edited through the array the visual handed out: even after every read of the visual "
+                          "its hash is not the hash of a fresh visual holding the colours it now shows", case)
+        # observability (not judged here: the statement is about the hash): the cached value
+        # keyed on that hash
+        alpha = bool(shown[:, 3].min() < 255)
+        run.state("visual_transparency_after_edit",
+                  (origin, "transparency" in pre, "right" if bool(vis.transparency) == alpha else "stale"))
+
+    # siblings: the other visual classes keep their arrays in a place the hash looks at
+    pc = trimesh.PointCloud(np.array(box.vertices), colors=tile(len(box.vertices)))
+    h0 = pc.visual.__hash__()
+    pc.visual.vertex_colors[0] = [1, 2, 3, 255]
+    run.case("container:visual:vertexcolor")
+    if pc.visual.__hash__() == h0:
+        run.violation("container kind=vertexcolor sym=hash_unchanged", "point cloud colours edited in place; visual hash unchanged", {})
+    tv = trimesh.visual.TextureVisuals(uv=np.array(box.vertices)[:, :2].copy())
+    h0 = tv.__hash__()
+    tv.uv[0] = [0.25, 0.75]
+    run.case("container:visual:texture_uv")
+    if tv.__hash__() == h0:
+        run.violation("container kind=texturevisuals member=uv sym=hash_unchanged", "uv edited in place; visual hash unchanged", {})
+
+
+# ----------------------------------------------------------------------------
+# objects the library derives from another object, and setters given an array of another
+# object: if the result holds a *second* tracked wrapper over the memory of the source, the two
+# dirty flags are independent and a plain in-place operator on one owner leaves the other stale
+
+
+def _tracked_of(obj):
+    """name -> TrackedArray held by a geometry or by the geometries of a scene"""
+    import trimesh
+
+    out = {}
+    if isinstance(obj, trimesh.Scene):
+        for g in obj.geometry.values():
+            for n, a in _tracked_of(g).items():
+                out.setdefault("geometry." + n, a)
+        return out
+    d = getattr(obj, "_data", None)
+    if d is not None and hasattr(d, "data"):
+        for k, v in d.data.items():
+            if _is_tracked(v):
+                out[k] = v
+    v = getattr(obj, "_vertices", None)
+    if _is_tracked(v):
+        out["vertices"] = v
+    return out
+
+
+def _alias_routes():
+    import trimesh
+    from trimesh.path.entities import Line
+
+    box = trimesh.creation.box()
+
+    def open_box():
+        return trimesh.Trimesh(np.array(box.vertices), np.array(box.faces[:10]), process=False)
+
+    def closed_box():
+        return trimesh.Trimesh(np.array(box.vertices), np.array(box.faces), process=False)
+
+    def path2():
+        return trimesh.path.Path2D(entities=[Line([0, 1, 2, 3, 0])],
+                                   vertices=np.array([[0, 0], [2, 0], [2, 1], [0, 1.0]]), process=False)
+
+    def path3():
+        return trimesh.path.Path3D(entities=[Line([0, 1, 2, 3, 0])],
+                                   vertices=np.array([[0, 0, 0], [2, 0, 0], [2, 1, 0], [0, 1.0, 0]]), process=False)
+
+    def into(make, attr, value):
+        def f(src):
+            other = make()
+            setattr(other, attr, value(src))
+            return other
+
+        return f
+
+    r = {}
+    # name -> (route class used in the key, make source, derive).  The route class names the
+    # library function and, for setters, what it was given; several concrete inputs share one.
+    def route(name, cls, make, derive):
+        r[name] = (cls, make, derive)
+
+    # ---- the library derives an object
+    route("mesh.outline", "mesh.outline", open_box, lambda m: m.outline())
+    route("mesh.outline:face_ids", "mesh.outline", open_box, lambda m: m.outline([0, 1, 2]))
+    route("mesh.copy", "mesh.copy", open_box, lambda m: m.copy())
+    route("mesh.submesh", "mesh.submesh", open_box, lambda m: m.submesh([np.arange(len(m.faces))], append=True))
+    route("mesh.split", "mesh.split", open_box, lambda m: m.split(only_watertight=False)[0])
+    route("mesh.convex_hull", "mesh.convex_hull", open_box, lambda m: m.convex_hull)
+    route("mesh.section", "mesh.section", closed_box, lambda m: m.section([0, 0, 1], [0, 0, 0]))
+    route("mesh.slice_plane", "mesh.slice_plane", closed_box, lambda m: m.slice_plane([0, 0, 0], [0, 0, 1]))
+    route("mesh.slice_plane:no_cut", "mesh.slice_plane", closed_box, lambda m: m.slice_plane([0, 0, -5], [0, 0, 1]))
+    route("mesh.subdivide", "mesh.subdivide", open_box, lambda m: m.subdivide())
+    route("mesh.projected", "mesh.projected", closed_box, lambda m: m.projected([0, 0, 1]))
+    route("mesh.smooth_shaded", "mesh.smooth_shaded", open_box, lambda m: m.smooth_shaded)
+    route("mesh.scene.dump", "scene.dump", open_box, lambda m: m.scene().dump(concatenate=True))
+    route("mesh.scene.copy", "scene.copy", open_box, lambda m: m.scene().copy())
+    route("util.concatenate:single", "util.concatenate", open_box, lambda m: trimesh.util.concatenate([m]))
+    route("load_path:mesh", "load_path:mesh", open_box, lambda m: trimesh.load_path(m))
+    route("PointCloud:mesh_vertices", "pointcloud.vertices_setter given=tracked_array", open_box,
+          lambda m: trimesh.PointCloud(m.vertices))
+    route("Trimesh:mesh_arrays", "mesh.setters given=tracked_array", open_box,
+          lambda m: trimesh.Trimesh(m.vertices, m.faces, process=False))
+    route("Trimesh:mesh_arrays:process", "mesh.constructor:process given=tracked_array", open_box,
+          lambda m: trimesh.Trimesh(m.vertices, m.faces, process=True))
+    route("path.copy", "path.copy", path2, lambda p: p.copy())
+    route("path.to_3D", "path.to_3D", path2, lambda p: p.to_3D())
+    route("path.to_planar", "path.to_planar", path3, lambda p: p.to_planar()[0])
+    route("path.split", "path.split", path2, lambda p: p.split()[0])
+    route("path.simplify", "path.simplify", path2, lambda p: p.simplify())
+    route("path.extrude", "path.extrude", path2, lambda p: p.extrude(1.0))
+    route("path.scene", "path.scene", path2, lambda p: p.scene())
+    route("path.concatenate", "path.concatenate", path2, lambda p: p + path2())
+    # ---- a setter (or the constructor calling it) is given an array of another object
+    T, NC, CV, BV = ("given=tracked_array", "given=noncontiguous_tracked_view",
+                     "given=contiguous_tracked_view", "given=base_class_view")
+    route("Path2D:path_vertices", "path.vertices_setter " + T, path2,
+          lambda p: trimesh.path.Path2D(entities=[Line([0, 1, 2, 3, 0])], vertices=p.vertices, process=False))
+    route("Path3D:mesh_vertices", "path.vertices_setter " + T, open_box,
+          lambda m: trimesh.path.Path3D(entities=[Line([0, 1, 2])], vertices=m.vertices, process=False))
+    route("path.vertices_setter:tracked", "path.vertices_setter " + T, path2, into(path2, "vertices", lambda p: p.vertices))
+    route("mesh.vertices_setter:tracked", "mesh.vertices_setter " + T, open_box, into(closed_box, "vertices", lambda m: m.vertices))
+    route("mesh.faces_setter:tracked", "mesh.faces_setter " + T, open_box, into(closed_box, "faces", lambda m: m.faces))
+    route("mesh.vertices_setter:reversed_view", "mesh.vertices_setter " + NC, open_box, into(closed_box, "vertices", lambda m: m.vertices[::-1]))
+    route("path.vertices_setter:reversed_view", "path.vertices_setter " + NC, path2, into(path2, "vertices", lambda p: p.vertices[::-1]))
+    route("mesh.faces_setter:flipped_view", "mesh.faces_setter " + NC, open_box, into(closed_box, "faces", lambda m: m.faces[:, ::-1]))
+    route("mesh.faces_setter:reversed_view", "mesh.faces_setter " + NC, open_box, into(closed_box, "faces", lambda m: m.faces[::-1]))
+    route("mesh.faces_setter:transposed_view", "mesh.faces_setter " + NC, open_box, into(closed_box, "faces", lambda m: m.faces[:3].T))
+    route("mesh.vertices_setter:row_slice_view", "mesh.vertices_setter " + CV, open_box, into(closed_box, "vertices", lambda m: m.vertices[1:]))
+    route("mesh.faces_setter:row_slice_view", "mesh.faces_setter " + CV, open_box, into(closed_box, "faces", lambda m: m.faces[1:]))
+    route("path.vertices_setter:row_slice_view", "path.vertices_setter " + CV, path2, into(path2, "vertices", lambda p: p.vertices[0:]))
+    route("mesh.vertices_setter:asarray", "mesh.vertices_setter " + BV, open_box, into(closed_box, "vertices", lambda m: np.asarray(m.vertices)))
+    route("mesh.faces_setter:asarray", "mesh.faces_setter " + BV, open_box, into(closed_box, "faces", lambda m: np.asarray(m.faces)))
+    route("path.vertices_setter:asarray", "path.vertices_setter " + BV, path2, into(path2, "vertices", lambda p: np.asarray(p.vertices)))
+    return r
+
+
+def _write_inplace(a):
+    """the plainest numpy write there is: an in-place operator (an overridden, flagged method)"""
+    if a.dtype.kind == "f":
+        a *= 2.0
+    else:
+        a += 1
+
+
+def alias_checks(run, only=None):
+    routes = _alias_routes()
+    for name, (cls, make, derive) in routes.items():
+        if only is not None and name != only:
+            continue
+        for written in ("derived", "source"):
+            try:
+                A = make()
+                B = derive(A)
+            except Exception as e:
+                run.skip("derive %s raised %s" % (name, type(e).__name__))
+                break
+            if B is A or B is None:
+                run.skip("derive %s returned the source" % name)
+                break
+            ta, tb = _tracked_of(A), _tracked_of(B)
+            pairs = [(ka, kb) for ka, a in ta.items() for kb, b in tb.items()
+                     if a is not b and a.size and b.size and np.shares_memory(a, b)]
+            same = [(ka, kb) for ka, a in ta.items() for kb, b in tb.items() if a is b]
+            run.case("container:derived:" + name, written, nontrivial=bool(pairs or same))
+            run.count("container_checks")
+            run.state("derived_object_arrays", (cls, "second_wrapper" if pairs else ("same_object" if same else "own_memory")))
+            for ka, kb in pairs + same:
+                src_arr, der_arr = ta[ka], tb[kb]
+                W, O_owner, O_arr = (der_arr, A, src_arr) if written == "derived" else (src_arr, B, der_arr)
+                # both owners have been looked at: hashes memoised, a cached value stored
+                for owner in (A, B):
+                    owner.__hash__()
+                    try:
+                        owner.bounds
+                    except Exception:
+                        pass
+                h0 = O_owner.__hash__()
+                b0 = np.ascontiguousarray(np.asarray(O_arr)).tobytes()
+                try:
+                    _write_inplace(W)
+                except Exception as e:
+                    run.skip("write raised %s" % type(e).__name__)
+                    continue
+                if np.ascontiguousarray(np.asarray(O_arr)).tobytes() == b0:
+                    continue
+                case = {"route": name, "written": written, "source_array": ka, "derived_array": kb}
+                key = "container kind=derived_alias route=%s " % cls
+                if O_owner.__hash__() == h0:
+                    run.violation(key + "sym=other_owner_hash_unchanged",
+                                  "two objects hold different tracked arrays over one buffer (each with its own dirty flag); an "
+                                  "in-place operator on the array of one changed the bytes of the other, whose hash did not change", case)
+                elif O_arr.__hash__() != _bytes_hash(O_arr):
+                    run.violation(key + "sym=other_array_hash_not_of_bytes",
+                                  "array of the other owner reports a hash which is not the hash of its bytes", case)
+
 
 # ----------------------------------------------------------------------------
 # contracts (icontract) on the real TrackedArray.__hash__
@@ -829,13 +1363,24 @@ def install_contract(run):
     except Exception:
         run.inconclusive("icontract not importable")
         return None
-    state = {"n": 0, "bad": 0}
+    import sys
+
+    state = {"n": 0, "bad": 0, "callers": {}}
     orig = caching.TrackedArray.__hash__
 
     def fresh(self, result):
         state["n"] += 1
         if result != caching.hash_fast(np.ndarray.tobytes(self, order="C")):
             state["bad"] += 1
+            # the library function which asked (first frame inside trimesh, outside caching.py)
+            who, f = "test_code", sys._getframe(1)
+            while f is not None:
+                fn = f.f_code.co_filename.replace("\\", "/")
+                if "/trimesh/" in fn and not fn.endswith("/caching.py"):
+                    who = getattr(f.f_code, "co_qualname", f.f_code.co_name)
+                    break
+                f = f.f_back
+            state["callers"][who] = state["callers"].get(who, 0) + 1
         return True
 
     class HashStale(Exception):
@@ -860,7 +1405,7 @@ def workload(run):
     run.note("operations", {g: len(v) for g, v in groups.items()})
 
     def do(dname, prog):
-        nt = run_program(run, dname, bases[dname], prog, by_name)
+        nt = run_program(run, dname, bases[dname.split("+")[0]], prog, by_name)
         run.case("prog:%s:len%d" % (dname, len(prog)), dname, tuple(prog), nontrivial=nt,
                  sample={"dtype": dname, "program": prog} if nt and run.evaluations % 997 == 0 else None)
 
@@ -876,6 +1421,8 @@ def workload(run):
         for a, b in itertools.product(names, names):
             idx += 1
             if not run.mine(idx):
+                continue
+            if by_name[a].ext and by_name[b].ext:
                 continue
             for sel in ("root", "last"):
                 do(dname, [(a, "root"), (b, sel)])
@@ -916,6 +1463,19 @@ def workload(run):
                 do(dname, [("hash", "root"), (w, "root"), (fz, "root")])
                 do(dname, [("hash", "root"), (w, "root"), (fz, "root"), ("hash", "root"), ("thaw", "root"), (w, "root")])
                 do(dname, [("v_slice", "root"), ("hash", "last"), (w, "last"), (fz, "last")])
+    # (2c) roots which own their memory (what `mesh.copy()` holds): every writer alone, after a
+    # hash read, and twice with a hash read in between; a view held across a resize is not
+    # generated (it would dangle)
+    for dname in dnames:
+        for w in writers:
+            idx += 1
+            if not run.mine(idx):
+                continue
+            own = dname + "+own"
+            do(own, [(w, "root")])
+            do(own, [("hash", "root"), (w, "root")])
+            do(own, [(w, "root"), ("hash", "root"), (w, "root")])
+            do(own, [("hash", "root"), ("r_copy", "root"), ("hash", "last"), (w, "last")])
     # (2b) view-of-view chains
     for dname in ("f8_n3", "i8_n3", "u1_n4"):
         for v1, v2 in itertools.product(groups["view"], groups["view"]):
@@ -934,6 +1494,8 @@ def workload(run):
     maxlen = 4 if run.tier == "quick" else 6
     while not run.out_of_time(0.93):
         dname = dnames[run.rng.integers(len(dnames))]
+        if run.rng.integers(4) == 0:
+            dname += "+own"
         n = int(run.rng.integers(3, maxlen + 1))
         prog = []
         for _ in range(n):
@@ -950,15 +1512,19 @@ def workload(run):
     finally:
         if ic:
             caching.TrackedArray.__hash__ = ic[1]
+    # (5) second wrappers made by the library (outside the postcondition: these scenarios are
+    # built to make an array stale, the symptom judged is the hash of the owner)
+    alias_checks(run)
     if ic:
         run.note("contract_TrackedArray.__hash___evaluations", ic[0]["n"])
         run.note("contract_TrackedArray.__hash___stale", ic[0]["bad"])
         if ic[0]["n"] == 0:
             run.inconclusive("TrackedArray.__hash__ postcondition never evaluated")
-        if ic[0]["bad"]:
-            run.violation("contract TrackedArray.__hash__ stale_in_container_workload",
-                          "TrackedArray.__hash__ returned a memo that is not the hash of the bytes during library calls",
-                          {"count": ic[0]["bad"]})
+        for who, n in sorted(ic[0]["callers"].items()):
+            run.violation("contract TrackedArray.__hash__ stale_memo caller=%s" % who,
+                          "TrackedArray.__hash__ returned a memo which is not the hash of the bytes to a library function "
+                          "during the container workload (no numpy bypass route and no view taken by the test)",
+                          {"count": n, "caller": who})
 
 
 def replay(run, case):
@@ -967,7 +1533,9 @@ def replay(run, case):
     bases = base_arrays()
     if isinstance(case, dict) and "program" in case:
         prog = [tuple(p) for p in case["program"]]
-        run_program(run, case["dtype"], bases[case["dtype"]], prog, by_name)
+        run_program(run, case["dtype"], bases[case["dtype"].split("+")[0]], prog, by_name)
         run.case("replay", case["dtype"], tuple(prog))
+    elif isinstance(case, dict) and "route" in case:
+        alias_checks(run, only=case["route"])
     else:
         container_checks(run)
